@@ -447,6 +447,30 @@ func (V *Verifier) DecodeSafe(mt *MsgType, props []string) []*Obligation {
 			x.obligeProps(s, "alloc", "alloc/failure@"+tag, Implies(Not(en), Le(s.alloc, Add(IntC(b), Mul(IntC(a), Len(u0))))), fmt.Sprintf("allocation on failure <= %d + %d x bytes present", b, a), []string{"C10"})
 		}
 	}
+	// time proportional to the input (C09): a repeating group is read element by element for as many elements as the
+	// wire claims, stopping at the first element that fails; that is bounded by the input only if every element
+	// consumes at least one byte
+	for i := 0; i < mt.Struct.NumFields(); i++ {
+		sl, ok := mt.Struct.Field(i).Type().Underlying().(*types.Slice)
+		if !ok {
+			continue
+		}
+		et := sl.Elem()
+		if p, isP := et.(*types.Pointer); isP {
+			et = p.Elem()
+		}
+		if !hasCodecMethods(et) {
+			continue
+		}
+		w := int64(0)
+		for _, m2 := range V.messageTypes() {
+			if types.Identical(m2.Named, et) {
+				w = V.minWidth(m2)
+			}
+		}
+		x.obligeProps(st, "ensures", fmt.Sprintf("list(%s)/element-consumes-input", mt.Struct.Field(i).Name()), BoolC(w >= 1),
+			fmt.Sprintf("every element of the repeating group occupies at least one byte (found %d), so the number of iterations is bounded by the input length", w), []string{"C09", "C10"})
+	}
 	if V.checkAlloc {
 		a, b := V.allocConsts(mt)
 		x.obligeProps(st, "alloc", "alloc/constants-are-small", BoolC(a <= maxAllocA && b <= maxAllocB), fmt.Sprintf("the bound of %s is %d + %d x bytes: a small constant plus a small multiple of the input", mt.Name, b, a), []string{"C10"})
